@@ -632,7 +632,7 @@ class RemoteStreamFlowPath(
             command = ["chmod"]
             if not follow_symlinks:
                 command.append("-h")
-            command.extend([f"{mode:o}", self.__str__()])
+            command.extend([f"{mode:o}", shlex.quote(self.__str__())])
             result, status = await self.connector.run(
                 location=self.location, command=command, capture_output=True
             )
